@@ -173,8 +173,10 @@ CLAIMED = {
         text=("restore_serialize (every serialisable state restores to the same counters, id, both queues with texts, order and "
               "sequence numbers), restore_strict (an accepted blob IS the serialisation of the state it produced: truncated, "
               "extended or altered blobs are refused), restore_safe (no read outside the buffer for any bytes: the checked "
-              "accessor's oob outcome is unreachable), reject_leaves_fresh / reject_clean, offline_only, and "
-              "restored_queues_like_native (the restored state satisfies the C06 queue invariant, so all C06 theorems apply). "
+              "accessor's oob outcome is unreachable), reject_leaves_fresh / reject_clean, offline_only, serialize_injective "
+              "(no two different resumable states share a blob), restored_queues_like_native (the restored state satisfies the "
+              "C06 queue invariant) and restored_then_fifo (EVERY later history from a restored connection keeps the invariant "
+              "and is byte-exact FIFO, starting with the restored unsent texts in their saved order). "
               "Tied to conn.c every run: blobs from the real serializer, every truncation, forged tags/lengths/counts, then queue "
               "operations on the restored object, comparing the complete internal state."),
         note=PROOF_NOTE + "Restore target is a fresh connection object; allocation failures not modelled."),
@@ -220,8 +222,12 @@ CLAIMED = {
         technique="Lean 4 theorems (decoder = strict RFC 4648 decoder on every string; round trip; tables = RFC alphabet) + differential correspondence + exhaustive small-alphabet enumeration",
         text=("decode_exact: for EVERY byte string the model of base64_decode (two-phase C control flow, returns bytes written "
               "and length reported) equals an independent strict RFC 4648 decoder; decode_encode round trip; encode = RFC "
-              "encoder; regenerated tables proved to be the RFC alphabet and its inverse (decide +kernel). Model tied to "
-              "crypto.c every run: all strings over a 7-symbol alphabet up to length 6 plus random/mutated encodings, with a "
+              "encoder; regenerated tables proved to be the RFC alphabet and its inverse (decide +kernel); "
+              "writes_within_buffer: on accepted AND refused inputs the quartet loop and the tail store at most dlen bytes "
+              "into the buffer sized by base64_decoded_len, resting on the translated-and-pinned nudge guard "
+              "(pin_nudge_guard). Model tied to "
+              "crypto.c every run: all strings over a 7-symbol alphabet up to length 6 plus random/mutated encodings and "
+              "whole quartets followed by long padding runs (ASan on exact-size blocks), with a "
               "double-fill-pattern oracle for uninitialised output."),
         note=PROOF_NOTE + "Allocation failures not modelled."),
     "C19": dict(
